@@ -272,7 +272,7 @@ def rule_g1(ctx):
                             res.ok({"function": "Circuit::wires", "wire": "%s.%d" % (v, i), "verdict": "copied from Gate::%s.%d" % (v, i)})
                         else:
                             res.bad(Finding("G1", wf["id"], "wires(): Wire::%s.%d" % (v, i), "operand %d of Wire::%s is not operand %d of Gate::%s" % (i, v, i, v), st["sp"]))
-    if done < 5:
+    if (done < 5) and not res.findings:
         raise AnchorMissing("G1b: Circuit::wires does not build Wire::{Xor,And,Not} from the gates (found %d operands)" % done)
     return res
 
@@ -348,7 +348,7 @@ def rule_g2(ctx):
                 else:
                     res.bad(Finding("G2", vs, "operand %s compared with something else" % ".".join(wires[0][1]),
                                     "a gate operand is not compared with the index of the gate itself: forward references pass validation", st["sp"]))
-    if n < 1:
+    if (n < 1) and not res.findings:
         raise AnchorMissing("G2: SSA validate compares no gate operand at all")
     return res
 
